@@ -4,7 +4,7 @@
 (* on every input up to the bound and (2) printed as one JSON behaviour with *)
 (* the spec's expected result of every API call, to be replayed into the     *)
 (* real code.                                                                *)
-EXTENDS Gen, Beh, Laws, Search
+EXTENDS Gen, Beh, Laws, Search, Scan
 
 CONSTANTS EmitMode, Variants
 
@@ -182,6 +182,11 @@ T18_SearchSound == Done => LET P == ProgOf IN
   LangUnspec(P) \/ LET o == Program(P, Render(P.ast))  fa == FactsOf(P, o) IN
      \A s \in Inputs : \A i \in 1..Len(s) + 1 :
         SearchStart(P, fa, s, i) = LeftmostStart(P.ast, P.ng, s, i, P.F)
+
+(* T20 (C04, C15, C06 - design level): the scan loops of Scan.tla (replace with its latch, TokenIter, AnalyzeIter)     *)
+(* compute exactly what the declarative Api functions specify, on every input                                         *)
+T20_ScanRefines == Done => LET P == ProgOf IN
+  \A s \in Inputs : ScanRefines(P, s, Repl2) /\ ScanRefines(P, s, ReplSpan)
 
 (* T11 (C14): under flag x, white space inserted outside class expressions changes nothing; inside a class    *)
 (* expression it is kept.  Stated on the parser: Parse(Strip(p')) = Parse(p) whenever the insertion point is *)
